@@ -40,7 +40,28 @@ var (
 	// ExitFn is called right before os.Exit in command code; it may
 	// panic to unwind an in-process command instead of ending the process.
 	ExitFn func(code int)
+	// StdioFn may supply in-memory standard streams to a command that
+	// is run in process.
+	StdioFn func() StdioSet
 )
+
+// StdioSet stands in for the process's standard streams.
+type StdioSet struct {
+	Stdin  io.Reader
+	Stdout io.Writer
+	Stderr io.Writer
+}
+
+func Stdio() StdioSet {
+	if f := StdioFn; f != nil {
+		return f()
+	}
+	return StdioSet{os.Stdin, os.Stdout, os.Stderr}
+}
+
+// InProcess reports whether the command body is being run by the harness
+// inside its own process (repository set-up already done by the harness).
+func InProcess() bool { return StdioFn != nil }
 
 func Yield(point string, inst interface{}) {
 	if f := YieldFn; f != nil {
